@@ -9,7 +9,10 @@ C07 — executable model of the server's client authentication, mirroring
   with the first certificate's key over the transcript so far (`verifyHandshakeSignature`, case
   ECC_SM3: type assertion of the key to `*ecdsa.PublicKey`, then the SM2 verification), then
   `readFinished`;
-* `checkForResumption` / `doResumeHandshake`.
+* `checkForResumption` / `doResumeHandshake`;
+* the point at which `createSessionState` (the only writer of the server's session cache) is called
+  relative to the checks of the full handshake (`Tables.storeAt`, `Result.stored`), and two-connection
+  histories over it (`history`).
 
 Everything that is a table, a comparison operator or a threshold in the source is a field of
 `Tables`, filled from the regenerated facts (`tablesOf`, fed with `Gotlcp.Facts.*.sa*`), so a
@@ -43,6 +46,22 @@ def Cmp.eval : Cmp → Nat → Nat → Bool
 inductive Usages where
   | clientOnly | clientOrServer
   deriving DecidableEq, Repr, Inhabited
+
+/-- where the source calls `createSessionState` (the only writer of the server's session cache)
+in a full handshake -/
+inductive StorePoint where
+  /-- in `doFullHandshake`, as soon as `hs.masterSecret` is derived from the ClientKeyExchange
+  (before the CertificateVerify is read) -/
+  | afterKx
+  /-- after the CertificateVerify block / after `doFullHandshake` returned nil, before `readFinished` -/
+  | afterCertVerify
+  /-- in `handshake()`, after `readFinished` returned nil (the source as it stands) -/
+  | afterFinished
+  deriving DecidableEq, Repr, Inhabited
+
+def StorePoint.ofString (s : String) : Option StorePoint :=
+  if s == "afterKx" then some .afterKx else if s == "afterCertVerify" then some .afterCertVerify
+  else if s == "afterFinished" then some .afterFinished else none
 
 /-- the source's tables and thresholds -/
 structure Tables where
@@ -80,6 +99,8 @@ structure Tables where
   /-- `verifyHandshakeSignature`: a public key that is not of the asserted type
   (`pubkey.(*ecdsa.PublicKey)` fails) makes it return an error -/
   vhsAssertReturns : Bool
+  /-- where `createSessionState` is called in a full handshake -/
+  storeAt : StorePoint
   deriving DecidableEq, Repr, Inhabited
 
 namespace Tables
@@ -98,7 +119,7 @@ policies or an operator is not a comparison -/
 def tablesOf (order : List String) (requires : List (String × Bool))
     (promoteOp promoteExcept promoteTo certReqOp certReqRhs certMsgOp certMsgRhs
      verifyOp verifyRhs anyUsage : String) (usages : List String) (ecdheMin : Nat)
-    (cvOp : String) (cvRhs : Nat) (g1 g2 rv ar : Bool) : Option Tables := do
+    (cvOp : String) (cvRhs : Nat) (g1 g2 rv ar : Bool) (storeAt : String) : Option Tables := do
   let ord ← order.mapM Policy.ofName
   let req ← (requires.filter (·.2)).mapM (fun r => Policy.ofName r.1)
   let pc ← Cmp.ofString promoteOp
@@ -115,11 +136,12 @@ def tablesOf (order : List String) (requires : List (String × Bool))
            else if usages == ["ExtKeyUsageClientAuth", "ExtKeyUsageServerAuth"] then some Usages.clientOrServer
            else none
   let cc ← Cmp.ofString cvOp
+  let sp ← StorePoint.ofString storeAt
   pure { order := ord, requires := req, promoteCmp := pc, promoteExcept := pe, promoteTo := pt,
          certReqCmp := rc, certReqRhs := rr, certMsgCmp := mc, certMsgRhs := mr,
          verifyCmp := vc, verifyRhs := vr, anyUsage := au, usages := us, ecdheMin := ecdheMin,
          cvCmp := cc, cvRhs := cvRhs, resumeNeedGuard := g1, resumeNoPolicyGuard := g2,
-         resumeReverify := rv, vhsAssertReturns := ar }
+         resumeReverify := rv, vhsAssertReturns := ar, storeAt := sp }
 
 /-- where a handshake stopped -/
 inductive Stage where
@@ -207,8 +229,12 @@ structure Result where
   chains : Bool
   /-- `verifyHandshakeSignature` ran on the CertificateVerify and returned nil -/
   popChecked : Bool
-  /-- number of certificates `createSessionState` records (`hs.peerCertificates`) -/
+  /-- number of certificates `createSessionState` records (`hs.peerCertificates`; 0 when it
+  did not run) -/
   recorded : Nat
+  /-- `createSessionState` ran: the server's cache now holds a session under the id announced in
+  the ServerHello, with the master secret of this handshake and `recorded` certificates -/
+  stored : Bool
   deriving DecidableEq, Repr, Inhabited
 
 /-- the local variable `authPolice` of `doFullHandshake` -/
@@ -232,35 +258,40 @@ def verifySig (t : Tables) (k : Option KeyKind) (v : CertVerify) : Bool :=
   | _ => !t.vhsAssertReturns
 
 /-- the part of `doFullHandshake` after the client's Certificate message (if any), followed by
-`readFinished`; `pc` is what `processCertsFromClient` left in the connection -/
+`readFinished` and `createSessionState`; `pc` is what `processCertsFromClient` left in the
+connection.  A handshake that stops has stored a session iff the source's `createSessionState`
+call (`t.storeAt`) lies before the step it stops at. -/
 def afterCerts (t : Tables) (b : Behaviour) (req : Bool) (pc : Certs) (recorded : Nat) : Result :=
-  let fail (s : Stage) (pop : Bool) : Result :=
+  let fail (s : Stage) (pop : Bool) (stored : Bool) : Result :=
     { completed := false, stage := s, certReq := req, peerCerts := pc.peer, chains := pc.chains,
-      popChecked := pop, recorded := 0 }
-  if !b.kxOK then fail .kx false
+      popChecked := pop, recorded := if stored then recorded else 0, stored := stored }
+  -- the session is already in the cache while the CertificateVerify / the Finished is awaited
+  let atCV : Bool := t.storeAt == .afterKx
+  let atFin : Bool := t.storeAt == .afterKx || t.storeAt == .afterCertVerify
+  if !b.kxOK then fail .kx false false
   else if t.cvCmp.eval pc.peer t.cvRhs then
     -- CertificateVerify is mandatory here
     match b.cv with
-    | none => fail .order false
+    | none => fail .order false atCV
     | some v =>
-      if !verifySig t pc.leaf v then fail .pop false
-      else if !b.finishedOK then fail .finished true
+      if !verifySig t pc.leaf v then fail .pop false atCV
+      else if !b.finishedOK then fail .finished true atFin
       else { completed := true, stage := .done, certReq := req, peerCerts := pc.peer,
-             chains := pc.chains, popChecked := true, recorded := recorded }
+             chains := pc.chains, popChecked := true, recorded := recorded, stored := true }
   else
     match b.cv with
-    | some _ => fail .order false        -- a handshake message where ChangeCipherSpec is expected
+    | some _ => fail .order false atFin        -- a handshake message where ChangeCipherSpec is expected
     | none =>
-      if !b.finishedOK then fail .finished false
+      if !b.finishedOK then fail .finished false atFin
       else { completed := true, stage := .done, certReq := req, peerCerts := pc.peer,
-             chains := pc.chains, popChecked := false, recorded := recorded }
+             chains := pc.chains, popChecked := false, recorded := recorded, stored := true }
 
-/-- `doFullHandshake` + `readFinished` under the configured policy `p` -/
+/-- `doFullHandshake` + `readFinished` (+ `createSessionState`) under the configured policy `p` -/
 def full (t : Tables) (p : Policy) (b : Behaviour) : Result :=
   let req := certReqSent t p b.ecdhe
   let fail (s : Stage) : Result :=
     { completed := false, stage := s, certReq := req, peerCerts := 0, chains := false,
-      popChecked := false, recorded := 0 }
+      popChecked := false, recorded := 0, stored := false }
   if certMsgExpected t p b.ecdhe then
     if !b.certMsg then fail .order
     else match processCerts t p b.ecdhe b.certs b.parseOK with
@@ -318,6 +349,15 @@ def resumedCompletes (t : Tables) (p : Policy) (r : Resume) : Bool :=
   match resume t p r with
   | .resumedDone _ _ => true
   | _ => false
+
+/-- **A history of two connections**: a full handshake of behaviour `b1` under policy `p1`, then a
+connection that offers (`offer`) the session id announced in the first one to a server under `p2`
+sharing the cache.  The cache answers iff `createSessionState` ran in the first handshake
+(`Result.stored`) — completed or not; `now` are the certificates it recorded, judged under the
+configuration of the second server. -/
+def history (t : Tables) (p1 p2 : Policy) (b1 : Behaviour) (now : List Cert) (offer mech fin : Bool) : ROutcome :=
+  resume t p2 { cacheHit := (full t p1 b1).stored && offer, mechOK := mech, ecdhe := b1.ecdhe,
+                recorded := now, finishedOK := fin }
 
 /-- the client behaviour that created a session, as far as the session still shows it: the
 recorded certificates (re-judged now); a session only ever records certificates of a completed
